@@ -4043,7 +4043,9 @@ class Network(Cached):
         vulnerability = np.zeros(self.N)
 
         #  Calculate global efficiency of complete network E
-        global_efficiency = self.global_efficiency(link_attribute)
+        #  (explicitly the single-network measure: InteractingNetworks
+        #  overrides global_efficiency with a two-group signature)
+        global_efficiency = Network.global_efficiency(self, link_attribute)
 
         if self.silence_level <= 1:
             print("Calculating (weighted) node vulnerabilities...")
